@@ -1185,6 +1185,43 @@ def section_check(ctx, cfg, cm, ham, point, mu, gamma, EL, const, sc, h0, pt, wo
                       "mapping the synodic state back gives %s = %.3e (bound %.1e)" % (sc, back[si], bsec), dict(rp, back=[float(x) for x in back], bound=bsec))
 
 
+def history_check(ctx):
+    """the conversions of ONE CenterManifold object do not depend on which other Hamiltonian representations the object was asked for in
+    between (the pipeline caches generating functions and expansions per form): convert, request other forms, convert again -- bitwise."""
+    h = hiten()
+    rng = ctx.rng
+    lk = 1 + (ctx.seed + 1) % 2
+    system = get_cm("EM", lk, 4)[0]
+    point = system.get_libration_point(lk)
+    cm = h["CenterManifold"](point, 4)
+    cm.compute()
+    u = [rng.gauss(0, 1) for _ in range(4)]
+    nu = math.sqrt(sum(x * x for x in u))
+    p = np.array([0.06 * x / nu for x in u])
+    forms = ["real_full_normal", "complex_partial_normal", "complex_full_normal", "real_partial_normal", "center_manifold_complex", "physical"]
+    rng.shuffle(forms)
+    s0 = np.asarray(cm.to_synodic(p), dtype=float)
+    b0 = np.asarray(cm.to_cm(s0), dtype=float)
+    done = []
+    for form in forms[:4]:
+        try:
+            cm.compute(form)
+        except Exception as e:   # a form the object does not offer is not part of the history
+            ctx.notes.append("history_check: compute(%r) raised %s" % (form, type(e).__name__))
+            continue
+        done.append(form)
+        s1 = np.asarray(cm.to_synodic(p), dtype=float)
+        b1 = np.asarray(cm.to_cm(s0), dtype=float)
+        ctx.case(("history", lk, tuple(done)), nontrivial=True, kind="history")
+        if not (np.array_equal(s0, s1) and np.array_equal(b0, b1)):
+            viol(ctx, "history:conversion-depends-on-requested-forms",
+                 "to_synodic / to_cm of the same point change after compute(%r) on the same CenterManifold (max change %.3g / %.3g)" % (
+                     form, float(np.max(np.abs(s1 - s0))), float(np.max(np.abs(b1 - b0)))),
+                 {"kind": "history", "point": "EM L%d" % lk, "degree": 4, "cm_point": p.tolist(), "history": ["compute()"] + ["compute(%r)" % f for f in done],
+                  "to_synodic_before": s0.tolist(), "to_synodic_after": s1.tolist(), "to_cm_before": b0.tolist(), "to_cm_after": b1.tolist()})
+            return
+
+
 def link_checks(ctx, T):
     """the hypotheses of `chain_inverse_structure` measured on the real links (EM L1/L2)"""
     h = hiten()
@@ -1226,18 +1263,23 @@ def link_checks(ctx, T):
 # ---------------------------------------------------------------------------------------------------------
 
 def run(ctx):
-    T, tr = gen(ctx)
+    g = ctx.guard("regenerate", gen, ctx)
+    T, tr = g if g is not None else (None, None)
     ok = ctx.lean_build(PROP_MODULES)
     if ok:
         ctx.lean_audit(PROP_MODULES, SRC_MODULES)
         if ctx.thorough():
             ctx.leanchecker(PROP_MODULES)
-    validate_traces(ctx, tr)
-    correspondence(ctx)
-    link_checks(ctx, T)
+    if g is not None:
+        ctx.guard("validate_traces", validate_traces, ctx, tr)
+    ctx.guard("correspondence", correspondence, ctx)
+    if g is not None:
+        ctx.guard("link_checks", link_checks, ctx, T)
+    history_check(ctx)
     consts = scaling(ctx)
     section_numerics(ctx, consts)
-    ctx.extra["tables_observed"] = {k: v for k, v in T.items() if k not in ("fixed_slots",)}
+    if g is not None:
+        ctx.extra["tables_observed"] = {k: v for k, v in T.items() if k not in ("fixed_slots",)}
     ctx.rule = ("exact correspondence: scripted dyadic polynomial Hamiltonians (degree <= 4, six variables) x solved variable (all six + unknown names) "
                 "x fixed-value dicts (incl. ignored and overwritten keys) x guesses/factors/max_expand/symmetric x branches {root up, root down, "
                 "no sign change, residual(0)>0, root finder gives up}; all four section coordinates for lift/build/enforce/plane; public "
